@@ -18,9 +18,12 @@ Transcribed:
 
 Not transcribed: the `Copy` shortcut `Scale` takes when `dr.Size() == sr.Size()` — `resizeImage` only scales after
 the fit test failed, and then both dimensions shrink (`Props.C20Pixels.scale_shrinks`), so the shortcut is
-unreachable from `resizeImage`; sources of other concrete types (`image.Gray`, `YCbCr`, `Paletted`, …: the generic
-`scale_RGBA_Image_*` paths use the same index formula with `src.At(…).RGBA()`, i.e. `load` = the type's own
-conversion — not modelled); the `DstMask`/`SrcMask` options (nil here).
+unreachable from `resizeImage`; the `DstMask`/`SrcMask` options (nil here).  Round 4: the generic paths
+`scale_RGBA_Image_{Over,Src}` (`scaledPxGeneric`: same index formula, pixel = the source's own `At(…).RGBA()`) and the
+Gray fast path (`grayStore`) are transcribed; `Props.C20Generic` shows the NRGBA / RGBA fast paths are the generic path
+on those types' `RGBA()`, so a source of another type whose `At(x,y).RGBA()` agrees with an NRGBA image's is scaled to
+the same bytes (`*image.Gray`, `*image.Paletted` with 8-bit palette entries: checked on the real code by the streams
+`halfg|fullg|halfq|fullq`).  `*image.YCbCr` (inlined 16-bit conversion) is not modelled.
 -/
 import VaxisModel.Model.Blocks
 import VaxisModel.Spec.Images
@@ -71,6 +74,17 @@ def storeOver (d : P8) (c : C16) : P8 :=
 def scaledPx (over : Bool) (src : Img8) (dw dh dx dy : Nat) : P8 :=
   let c := load src.kind (src.pix (nnIndex dx src.w dw) (nnIndex dy src.h dh))
   if over then storeOver ⟨0, 0, 0, 0⟩ c else storeSrc c
+
+/-- The generic paths `scale_RGBA_Image_{Over,Src}` (round 4; sources of any other concrete type — `*image.Paletted`,
+    16-bit types, …): the same index formula, the pixel is what the source's own `At(x, y).RGBA()` returns (`px`), the
+    same stores.  `sw × sh`: the source's size. -/
+def scaledPxGeneric (over : Bool) (px : Nat → Nat → C16) (sw sh dw dh dx dy : Nat) : P8 :=
+  let c := px (nnIndex dx sw dw) (nnIndex dy sh dh)
+  if over then storeOver ⟨0, 0, 0, 0⟩ c else storeSrc c
+
+/-- The fast path `scale_RGBA_Gray_Src` (source `*image.Gray`, always opaque): `pr := uint32(Y) * 0x101;
+    out := uint8(pr >> 8)`, stored three times with alpha `0xff`. -/
+def grayStore (y : Nat) : P8 := ⟨u8 (y * 0x101 / 256), u8 (y * 0x101 / 256), u8 (y * 0x101 / 256), 0xff⟩
 
 /-- The scaled image (an `*image.RGBA`). -/
 def scale (over : Bool) (src : Img8) (dw dh : Nat) : Img8 :=
